@@ -598,13 +598,16 @@ func (g *TxGen) mkRegisterNode() *GenTx {
 		o := nodes[g.rng.IntN(len(nodes))]
 		old := n.Keys
 		nk := n.Keys
-		switch g.rng.IntN(3) {
+		switch g.rng.IntN(4) {
 		case 0:
 			nk.P2P = o.Keys.P2P
 		case 1:
 			nk.TLS = o.Keys.TLS
 		case 2:
 			nk.VRF = o.Keys.Consensus
+		case 3:
+			// the other node's IDENTITY key as a sub-key of this node
+			nk.P2P = o.Keys.ID
 		}
 		n.Keys = nk
 		nd := NodeDescriptor(n, beacon.EpochTime(g.view().Epoch+2))
@@ -629,6 +632,34 @@ func (g *TxGen) mkRegisterNode() *GenTx {
 		gt.Intent = "bad-expiration"
 		return gt
 	}
+}
+
+// MkIdentityAsSubKey re-registers the first registered node of the scenario with the IDENTITY
+// key of the second one as its P2P key (start-up witness of the listed C17 finding: the
+// registry checks sub-keys against other nodes' sub-keys only).
+func (g *TxGen) MkIdentityAsSubKey() *GenTx {
+	var regd []*SimNode
+	for _, n := range g.h.Sc.AllNodes() {
+		if g.view().Nodes[n.Keys.ID.PK] != nil {
+			regd = append(regd, n)
+		}
+	}
+	if len(regd) < 2 {
+		return nil
+	}
+	n, o := regd[0], regd[1]
+	old := n.Keys
+	nk := n.Keys
+	nk.P2P = o.Keys.ID
+	n.Keys = nk
+	nd := NodeDescriptor(n, beacon.EpochTime(g.view().Epoch+2))
+	sn := signNode(NodeSigners(n), nd)
+	n.Keys = old
+	tx := registry.NewRegisterNodeTx(g.nonce(n.Keys.ID), g.feeSure(g.nodeGas(n)+4000), sn)
+	gt := g.finish(n.Keys.ID, tx, n.Name+" takes the identity key of "+o.Name+" as its P2P key")
+	gt.Intent = "duplicate-subkey"
+	gt.OnSuccess = func() { n.Keys = nk; n.Desc = nd }
+	return gt
 }
 
 func (g *TxGen) mkUnfreeze() *GenTx {
